@@ -336,36 +336,49 @@ def _fmt_arg(conv, x):
 _FMT = _re.compile(r'%(?:\((\w+)\))?([-#0 +]*)(\d*)(?:\.(\d+))?([sdirfgxXc%])')
 
 
+def _sx_mod_chars(a, b):
+    out = []
+    pos = 0
+    idx = 0
+    for m in _FMT.finditer(a):
+        out.extend(a[pos:m.start()])
+        pos = m.end()
+        name, flags, width, prec, conv = m.groups()
+        if conv == '%':
+            out.append('%')
+            continue
+        if name is not None:
+            x = b[name]
+        elif type(b) is tuple:
+            x = b[idx]
+            idx += 1
+        else:
+            x = b
+            idx += 1
+        if type(x) in _SYMSET:
+            if flags or width or prec:
+                raise Unmodelled('format flags with symbolic argument: %r' % a)
+            out.extend(_fmt_arg(conv, x))
+        else:
+            out.extend(('%' + flags + width + ('.' + prec if prec else '') + conv) % (x,))
+    out.extend(a[pos:])
+    return out
+
+
+_NUMSYM = frozenset([SymInt, NumProxy, SymReal, RealProxy])
+
+
 def _sx_mod(a, b):
     if type(a) is str:
-        if type(b) in _SYMSET or (type(b) is tuple and _has_sym(b)) or (type(b) is dict and _has_sym(b.values())):
+        tb = type(b)
+        if tb in _SYMSET or (tb is tuple and _has_sym(b)) or (tb is dict and _has_sym(b.values())):
             eng = core.CUR
-            out = []
-            pos = 0
-            idx = 0
-            for m in _FMT.finditer(a):
-                out.extend(a[pos:m.start()])
-                pos = m.end()
-                name, flags, width, prec, conv = m.groups()
-                if conv == '%':
-                    out.append('%')
-                    continue
-                if name is not None:
-                    x = b[name]
-                elif type(b) is tuple:
-                    x = b[idx]
-                    idx += 1
-                else:
-                    x = b
-                    idx += 1
-                if type(x) in _SYMSET:
-                    if flags or width or prec:
-                        raise Unmodelled('format flags with symbolic argument: %r' % a)
-                    out.extend(_fmt_arg(conv, x))
-                else:
-                    out.extend(('%' + flags + width + ('.' + prec if prec else '') + conv) % (x,))
-            out.extend(a[pos:])
-            return mk(eng, out)
+            vals = b if tb is tuple else (list(b.values()) if tb is dict else (b,))
+            for x in vals:
+                if type(x) in _NUMSYM or (type(x) is SymStr and x._c is None):
+                    # rendering a symbolic number forks on its digits: do that only if the text is ever inspected
+                    return SymStr.lazy(eng, lambda: _sx_mod_chars(a, b))
+            return mk(eng, _sx_mod_chars(a, b))
         return a % b
     if type(a) in (SymStr, SymTok):
         raise Unmodelled('symbolic format string')
@@ -452,7 +465,9 @@ def _h_str(args, kw):
         if ta is SymBool:
             return 'True' if bool(a) else 'False'
         if ta in (SymReal, RealProxy):
-            raise Unmodelled('str() of a symbolic real')
+            def _no():
+                raise Unmodelled('str() of a symbolic real was inspected')
+            return SymStr.lazy(a.eng, _no)
     return str(*args, **kw)
 
 
@@ -561,7 +576,45 @@ def _h_re_sub(args, kw):
     return _re.sub(*args, **kw)
 
 
-_HANDLERS = {ord: _h_ord, chr: _h_chr, int: _h_int, float: _h_float, str: _h_str, repr: _h_repr,
+def _h_int_new(args, kw):
+    if len(args) >= 2 and type(args[1]) in _SYMSET:
+        cls, a = args[0], args[1]
+        ta = type(a)
+        if ta in (SymInt, NumProxy):
+            return NumProxy(cls, a) if cls is not int else SymInt(a.eng, a.z)
+        if ta is SymBool:
+            return NumProxy(cls, SymInt(a.eng, core.zint(a)))
+        if ta in (SymStr, SymTok):
+            return NumProxy(cls, core.str_to_int(a, *args[2:3]))
+        if ta in (SymReal, RealProxy):
+            return NumProxy(cls, a.__int__())
+    return int.__new__(*args, **kw)
+
+
+def _h_float_new(args, kw):
+    if len(args) >= 2 and type(args[1]) in _SYMSET:
+        cls, a = args[0], args[1]
+        ta = type(a)
+        if ta in (SymReal, RealProxy):
+            return RealProxy(cls, a) if cls is not float else SymReal(a.eng, a.z)
+        if ta in (SymInt, NumProxy):
+            return RealProxy(cls, SymReal(a.eng, z3.ToReal(a.z)))
+        if ta in (SymStr, SymTok):
+            return RealProxy(cls, core.str_to_float(as_symstr(a)))
+    return float.__new__(*args, **kw)
+
+
+def _h_str_new(args, kw):
+    if len(args) >= 2 and type(args[1]) in _SYMSET:
+        cls, a = args[0], args[1]
+        r = _h_str((a,), {})
+        if cls is str:
+            return r
+        return SymTok(cls, as_symstr(r))
+    return str.__new__(*args, **kw)
+
+
+_HANDLERS = {int.__new__: _h_int_new, float.__new__: _h_float_new, str.__new__: _h_str_new, ord: _h_ord, chr: _h_chr, int: _h_int, float: _h_float, str: _h_str, repr: _h_repr,
              isinstance: _h_isinstance, type: _h_type, hash: _h_hash, round: _h_round, bool: _h_bool,
              _os.path.splitext: _h_splitext, _re.sub: _h_re_sub}
 
